@@ -363,6 +363,8 @@ def gen_source(rng, size=4096, tight=False):
         text = "\n".join([".data"] + dl + [".text"] + lines) if rng.random() < 0.5 else "\n".join(([".text"] if rng.random() < 0.5 else []) + lines + [".data"] + dl)
     else:
         text = "\n".join(([".text"] if rng.random() < 0.3 else []) + lines)
+    # line ends: LF, CR LF or CR only - a text is a sequence of lines whatever separates them
+    text = text.replace("\n", rng.choice(["\n", "\n", "\n", "\r\n", "\r"]))
     exp = dict(img)
     exp.update({i: w for i, w in enumerate(words)})
     case = {"kind": "asm", "text": text, "image": {str(a): v for a, v in exp.items()}, "max_pc": n - 1, "stats": {"vars": nv, "refs": refs, "arrays": arrays}}
